@@ -36,6 +36,7 @@ class Run:
         self.transitions = set()
         self.ci_pool = []
         self.ci_shapes = {}
+        self.unschedulable = None
 
     def count(self, k, n=1):
         self.counters[k] = self.counters.get(k, 0) + n
@@ -112,7 +113,7 @@ class Run:
             self.nontrivial = True
         elif view['rows'] and params['dir'] == 'bwd':
             self.nontrivial = True
-        in_domain = self.in_domain(params) and (params['dir'] == 'fwd' or self.bwd_domain())
+        in_domain = self.in_domain(params) and (params['dir'] == 'fwd' or self.bwd_domain()) and not self.unschedulable
         # ---- structure of the result (C06)
         r = so.check_c06_result(c, pre)
         if r:
@@ -220,6 +221,7 @@ class Run:
                         if (params['dir'] == 'bwd') or not kw.get('start'):
                             must_raise = must_raise or f'resource {kw.get("resource")} never becomes available'
                         may_raise = True
+        self.unschedulable = must_raise
         if must_raise and out['outcome'] == 'ok':
             vs.append(so.V('C14', 'undiagnosed', f'calc returned a schedule although {must_raise}', c))
             self.count('probe.unschedulable_returned')
@@ -493,8 +495,8 @@ def chunk(payload):
 
 
 TIER_RUNS = {
-    'quick': {'default': 6000},
-    'thorough': {'default': 300000},
+    'quick': {'default': 12000},
+    'thorough': {'default': 600000},
 }
 
 QUARANTINE_OF = {
